@@ -48,6 +48,12 @@ pub fn stark_verify<Layout: LayoutTrait>(
         trace_generator: stark_domains.trace_generator,
         constraint_coefficients: commitment.interaction_after_oods,
     };
+    // The composition table opens CONSTRAINT_DEGREE cells per query. Its column count is the
+    // prover's and not checked by config validation, so check the opened length here.
+    if witness.composition_decommitment.values.len() != queries.len() * Layout::CONSTRAINT_DEGREE {
+        return Err(swiftness_commitment::table::decommit::Error::DecommitmentLength.into());
+    }
+
     let oods_poly_evals = eval_oods_boundary_poly_at_points::<Layout>(
         n_original_columns,
         n_interaction_columns,
